@@ -492,6 +492,15 @@ func (t *textReader) onNull(ws bool) (Type, error) {
 			return NoType, err
 		}
 		if ok {
+			// The type name follows the dot directly: 'null. int' and
+			// 'null./*c*/int' are not typed nulls.
+			c, err := t.tok.peek()
+			if err != nil {
+				return NoType, err
+			}
+			if !isIdentifierStart(c) {
+				return NoType, &SyntaxError{"invalid symbol null.", t.tok.Pos()}
+			}
 			return t.readNullType()
 		}
 	}
